@@ -21,6 +21,7 @@ func init() {
 }
 
 type luaGen struct {
+	nfin        int
 	b           strings.Builder
 	t           *core.Tape
 	ind         int
@@ -116,6 +117,13 @@ func (g *luaGen) stmt() {
 	w[6] = 1 // error
 	w[7] = 1 // return
 	w[9] = 1 // do-block
+	if g.nfin < 2 && g.t.Chance(1, 12) {
+		// a finaliser that uses coroutines itself (runs when its context or the runtime is closed)
+		g.nfin++
+		g.feat["finaliser-with-coroutines"] = true
+		g.line(`fin(%d)`, g.nfin)
+		return
+	}
 	switch g.t.Weighted(w...) {
 	case 0:
 		g.line(`emit("e%d"%s)`, g.t.Choose(10), prefixComma(g.vals()))
@@ -195,7 +203,28 @@ const coroPrelude = `local function mkc(k, mode, j)
     elseif mode == 5 then emit("cy", pcall(coroutine.yield, "in-close" .. k)) end
   end})
 end
+FIN = {}
+local function fin(k)
+  FIN[#FIN + 1] = setmetatable({}, {__gc = function()
+    local co = coroutine.wrap(function(a) local b = coroutine.yield(a + 1) return b * 2 end)
+    local x, y = co(1), co(5)
+    local c2 = coroutine.create(function() coroutine.yield() end)
+    coroutine.resume(c2)
+    emit("fin", k, x, y, coroutine.status((coroutine.running())), coroutine.status(c2), coroutine.close(c2), coroutine.status(c2))
+  end})
+end
 `
+
+// finOK checks the events emitted by finalisers that use coroutines (they run in the runtime's own
+// finaliser thread): the values are fixed by construction.
+func finOK(events []string) string {
+	for _, e := range events {
+		if strings.HasPrefix(e, `emit "fin" `) && !strings.HasSuffix(e, ` 2 10 "running" "suspended" true "dead"`) {
+			return e
+		}
+	}
+	return ""
+}
 
 // genCoroScript generates a free-form coroutine script.
 func genCoroScript(t *core.Tape, noCoInClose bool) (string, map[string]bool) {
@@ -261,6 +290,9 @@ func execScript(src string, sch *core.Tape, maxSteps int) (events []string, outc
 	if pan := h.Close(); pan != nil {
 		outcome += fmt.Sprintf(" CLOSEPANIC(%v)", pan)
 	}
+	if bad := finOK(log.Events()); bad != "" {
+		outcome += " FINFAIL(" + bad + ")"
+	}
 	if l2 := s.End(); leak == "" {
 		leak = l2
 	}
@@ -290,6 +322,9 @@ func execScriptFree(src string) ([]string, string) {
 	if pan := h.Close(); pan != nil {
 		outcome += fmt.Sprintf(" CLOSEPANIC(%v)", pan)
 	}
+	if bad := finOK(log.Events()); bad != "" {
+		outcome += " FINFAIL(" + bad + ")"
+	}
 	return ev, outcome
 }
 
@@ -305,6 +340,10 @@ func runCoroFree(ctx *core.RunCtx) {
 		fl := featList(feat)
 		if strings.Contains(out0, "PANIC") && !strings.Contains(out0, "PANIC(TERMINATION") {
 			ctx.Fail("C09", "C09.P", "panic", "Go panic escaped (free-running): %s {%s}", out0, fl)
+			return
+		}
+		if strings.Contains(out0, "FINFAIL") {
+			ctx.Fail("C09", "C09.F", "coroutines-in-finaliser", "coroutine operations inside a finaliser misbehave: %s {%s}", out0, fl)
 			return
 		}
 		if out0 != out1 || firstDiff(ev0, ev1) >= 0 {
@@ -344,6 +383,10 @@ func runCoroFree(ctx *core.RunCtx) {
 	// compared between the two schedules like any other outcome.
 	if strings.Contains(out0, "PANIC") && !strings.Contains(out0, "PANIC(TERMINATION") || strings.Contains(out1, "PANIC") && !strings.Contains(out1, "PANIC(TERMINATION") {
 		ctx.Fail("C09", "C09.P", "panic", "Go panic escaped: %s / %s {%s}", out0, out1, fl)
+		return
+	}
+	if strings.Contains(out0, "FINFAIL") || strings.Contains(out1, "FINFAIL") {
+		ctx.Fail("C09", "C09.F", "coroutines-in-finaliser", "coroutine operations inside a finaliser misbehave: %s / %s {%s}", out0, out1, fl)
 		return
 	}
 	if out0 != out1 {
